@@ -48,11 +48,26 @@ func confInt(s *sw.Sys, key string) int {
 }
 
 // refGops: the reference GOP model for messages P[lo:hi) of one incarnation.
+//
+// A sequence header whose content differs from its predecessor empties the model's cache: the GOPs
+// before it were coded under other parameter sets and clause (b) forbids replaying them under the new
+// header (replaying them under their own header would need the old header to be resent, which no
+// clause asks for).
 func refGops(P []sw.PubMsg, inc, hi int) [][]int {
 	var gops [][]int
+	lastHdr := map[string][]byte{}
 	for i := 0; i < hi; i++ {
 		m := P[i]
-		if m.Inc != inc || !sw.Forwardable(m) || hdrClass(m.Kind) != "" {
+		if m.Inc != inc || !sw.Forwardable(m) {
+			continue
+		}
+		if hc := hdrClass(m.Kind); hc != "" {
+			if hc != "meta" {
+				if prev, ok := lastHdr[hc]; ok && !bytes.Equal(prev, m.Payload) {
+					gops = nil
+				}
+				lastHdr[hc] = m.Payload
+			}
 			continue
 		}
 		if m.Kind == "key" {
